@@ -93,6 +93,11 @@ def make_check(op):
         except Exception:  # noqa: BLE001  (C01/C02 own backward completion)
             rec.skip = "backward_raised"
             return
+        # backward called directly on leaves that already hold a gradient, with an upstream gradient of the other dtype
+        for i, t in enumerate(ts):
+            if rg[i] and t.grad is not None and case["gdtype"] == "other":
+                t.backward(Tensor(np.ones(t.shape, dtype=gdt)))
+                rec.tag("leaf_as_root_again")
         holders = [("root", root)] + ([("retained interior", o)] if case["wrap"] else [])
         holders += [(f"operand {i}", t) for i, t in enumerate(ts) if rg[i]]
         for name, t in holders:
@@ -153,6 +158,48 @@ def check_bn_hist(c, rec):
                 raise Violation("grad_dtype", f"parameter grad dtype {p.grad.dtype} != {p.dtype}; {hist}")
 
 
+# ---- large tensors (thousands of elements): dtype of results and gradients only -----------------------------------
+BIG_OPS = {
+    "sum": lambda x, w: x.sum(), "mean": lambda x, w: x.mean(), "mean_dim": lambda x, w: x.mean(0), "max": lambda x, w: x.max(1),
+    "exp": lambda x, w: (x * 0.01).exp(), "log": lambda x, w: (x * x + 1.0).log(), "sqrt": lambda x, w: (x * x + 1.0).sqrt(),
+    "mul": lambda x, w: x * x, "matmul": lambda x, w: x @ w, "softmax": lambda x, w: sg.softmax(x, 1),
+    "log_softmax": lambda x, w: sg.log_softmax(x, -1), "relu": lambda x, w: sg.relu(x), "tanh": lambda x, w: sg.tanh(x),
+    "mse_mean": lambda x, w: sg.nn.MSELoss()(x, x * 0.5), "linear": lambda x, w: sg.linear(x, w.transpose(0, 1)),
+    "reshape_sum": lambda x, w: x.reshape((-1,)).sum(), "flatten_mean": lambda x, w: x.flatten().mean(),
+    "ce_mean": lambda x, w: sg.nn.CrossEntropyLoss()(x, Tensor(np.arange(x.shape[0]) % x.shape[1])),
+    "bce_logits_mean": lambda x, w: sg.nn.BCEWithLogitsLoss()(x, Tensor((np.arange(x.data.size).reshape(x.shape) % 2).astype(x.dtype))),
+    "avg_pool": lambda x, w: sg.avg_pool2d(x.reshape((1, 1) + tuple(x.shape)), 2),
+    "batch_norm": lambda x, w: sg.batch_norm(x),
+}
+
+
+@st.composite
+def big_cases(draw):
+    return {"op": draw(st.sampled_from(sorted(BIG_OPS))), "n": draw(st.sampled_from([70, 130, 300, 1100])),
+            "m": draw(st.sampled_from([64, 40, 66])), "dtype": draw(st.sampled_from(["float32", "float32", "float64"])),
+            "gother": draw(st.booleans())}
+
+
+def check_big(c, rec):
+    dt = np.dtype(c["dtype"])
+    other = np.dtype(np.float32 if dt == np.float64 else np.float64)
+    n, m = c["n"], c["m"]
+    rec.nontrivial(n * m > 4096)
+    rec.tag(c["op"], c["dtype"])
+    x = Tensor(((np.arange(n * m).reshape(n, m) * 37 % 101) / 50.0 - 1.0).astype(dt), requires_grad=True)
+    w = Tensor(((np.arange(m * 8).reshape(m, 8) * 13 % 17) / 17.0).astype(dt), requires_grad=True)
+    out = BIG_OPS[c["op"]](x, w)
+    ctx = f"{c}"
+    if out.dtype != dt:
+        raise Violation("result_dtype", f"{c['op']} on a {dt} tensor of {n}x{m} elements returned {out.dtype}; {ctx}")
+    g = Tensor(np.ones(out.shape, dtype=other if c["gother"] else dt))
+    out.backward(g)
+    for name, t in (("input", x), ("weight", w), ("result", out)):
+        gr = t.grad
+        if gr is not None and (gr.dtype != t.dtype or gr.shape != t.shape):
+            raise Violation("grad_dtype", f"{c['op']}: {name} grad is {gr.dtype}{gr.shape} for a {t.dtype}{t.shape} tensor; {ctx}")
+
+
 def subchecks():
     subs = []
     heavy = {"conv1d", "conv2d", "max_pool2d", "avg_pool2d", "fold", "unfold", "batch_norm"}
@@ -163,4 +210,5 @@ def subchecks():
         subs.append(SubCheck("nn_" + op.name, make_check(op), (lambda op=op: mixed_case(op)),
                              quick=150 if op.name in heavy else 250, thorough=2000, shards_quick=1, shards_thorough=2))
     subs.append(SubCheck("bn_history", check_bn_hist, bn_hist_cases, quick=300, thorough=3000))
+    subs.append(SubCheck("large_tensors", check_big, big_cases, quick=120, thorough=1500, shards_quick=2, shards_thorough=4))
     return subs
